@@ -118,8 +118,23 @@ pub fn run(args: &Args) {
         // the reference: which (torrent, port) holds which peer id index; a port always uses the same id
         let mut stored: HashMap<(usize, u16), usize> = HashMap::new();
         *header = cq::list(&names.iter().map(|n| cq::hex(n.as_bytes())).collect::<Vec<_>>());
-        for _phase in 0..3 {
+        for phase in 0..3 {
             let mut ops: Vec<String> = Vec::new();
+            // from the second phase on: take one stored peer id out of EVERY torrent it is in (its
+            // tally entry must disappear, not linger at zero)
+            if phase >= 1 {
+                let mut keys: Vec<(usize, u16)> = stored.keys().copied().collect();
+                keys.sort();
+                if let Some(&(_, victim_port)) = keys.first() {
+                    for (t, aport) in keys.iter().copied().filter(|k| k.1 == victim_port) {
+                        let pi = stored[&(t, aport)];
+                        let _ = sock.send_to(&announce_bytes(&cid, &hashes[t], &pids[pi], 3, aport), &dst);
+                        let _ = sock.recv_from(&mut buf);
+                        stored.remove(&(t, aport));
+                        ops.push(format!("({}, {}, {})", cq::n(t), cq::n(pi), cq::b(true)));
+                    }
+                }
+            }
             for _ in 0..(1 + rng.below(6)) {
                 let t = rng.below(2) as usize;
                 let pi = rng.below(6) as usize;
